@@ -562,8 +562,29 @@ func (option *Option) isValidValue(arg string) error {
 	if validator := option.isValueValidator(); validator != nil {
 		return validator.IsValidValue(arg)
 	}
-	if argumentIsOption(arg) && !(option.isSignedNumber() && len(arg) > 1 && arg[0] == '-' && arg[1] >= '0' && arg[1] <= '9') {
+	if argumentIsOption(arg) && !(option.isSignedNumber() && option.isNegativeNumber(arg)) {
 		return fmt.Errorf("expected argument for flag `%s', but got option `%s'", option, arg)
 	}
 	return nil
+}
+
+// isNegativeNumber returns whether arg can be taken as a negative number for a
+// signed numeric option: it starts with a minus sign followed by a digit, or it
+// converts to the option's number type (e.g. -.5, -Inf, or -ff with base 16).
+func (option *Option) isNegativeNumber(arg string) bool {
+	if len(arg) < 2 || arg[0] != '-' {
+		return false
+	}
+
+	if arg[1] >= '0' && arg[1] <= '9' {
+		return true
+	}
+
+	tp := option.value.Type()
+
+	for tp.Kind() == reflect.Slice || tp.Kind() == reflect.Ptr {
+		tp = tp.Elem()
+	}
+
+	return convert(arg, reflect.New(tp).Elem(), option.tag) == nil
 }
